@@ -350,19 +350,35 @@ func runC03(r *Report, rng *rand.Rand, thorough bool) {
 		nSets = 40
 	}
 	type setInfo struct {
-		rs   []rroute
-		spec []byte
+		rs    []rroute
+		spec  []byte
+		slash bool // the fixed family of paths ending in a slash: only the routes' own requests are sent
 	}
 	var sets []setInfo
 	var pkgs []LabPkg
 	for s := 0; s < nSets; s++ {
 		rs := genRouteSet(rng)
 		spec := routeSpec(rng, rs)
-		sets = append(sets, setInfo{rs, spec})
+		sets = append(sets, setInfo{rs, spec, false})
 		for _, fw := range Frameworks {
 			strict := s%2 == 1
 			pkgs = append(pkgs, LabPkg{Name: fmt.Sprintf("c03_s%d_%s", s, fw), Spec: spec, FW: fw,
 				Cfg: codegen.Configuration{Generate: fwGenerate(fw, codegen.GenerateOptions{Models: true, Strict: strict, Client: true})}})
+		}
+	}
+	// paths that differ only in a final slash, and the root path (also below a base URL): an empty last segment
+	{
+		rs := []rroute{
+			{"get", []rseg{{lit: ""}}, "opRoot"},
+			{"get", []rseg{{lit: "pets"}}, "opPets"},
+			{"get", []rseg{{lit: "pets"}, {lit: ""}}, "opPetsSlash"},
+			{"get", []rseg{{lit: "pets"}, {v: routeVarsByDepth[0] + "1"}}, "opPet"},
+		}
+		spec := routeSpec(rng, rs)
+		sets = append(sets, setInfo{rs, spec, true})
+		for _, fw := range Frameworks {
+			pkgs = append(pkgs, LabPkg{Name: fmt.Sprintf("c03_s%d_%s", len(sets)-1, fw), Spec: spec, FW: fw,
+				Cfg: codegen.Configuration{Generate: fwGenerate(fw, codegen.GenerateOptions{Models: true, Client: true})}})
 		}
 	}
 	lab, err := BuildLab(labRoot, "c03", pkgs)
@@ -455,6 +471,10 @@ func runC03(r *Report, rng *rand.Rand, thorough bool) {
 						}
 					}
 					add("match", rt.method, segs)
+					if set.slash {
+						r.Dist["family=final-slash"]++
+						continue
+					}
 					add("extra-segment", rt.method, append(append([]string(nil), segs...), "zz"))
 					if len(segs) > 1 {
 						add("missing-segment", rt.method, segs[:len(segs)-1])
@@ -623,6 +643,23 @@ func runC03(r *Report, rng *rand.Rand, thorough bool) {
 				continue
 			}
 		}
+		// fiber (StrictRouting off by default) and iris (path correction on by default) do not tell /pets/ from /pets: the
+		// request is served by the sibling without / with the final slash, or redirected (third-party defaults the generated
+		// registration code does not change; recorded, kept out of the correspondence)
+		if set.slash && (m.fw == "fiber" || m.fw == "iris") && want != nil && (len(handlers) != 1 || handlers[0].Name != opName(want.op)) {
+			sibling := len(handlers) == 0 && (res.Status == 301 || res.Status == 308)
+			if len(handlers) == 1 {
+				for _, rt := range set.rs {
+					if opName(rt.op) == handlers[0].Name && strings.TrimSuffix(rt.path(), "/") == strings.TrimSuffix(want.path(), "/") {
+						sibling = true
+					}
+				}
+			}
+			if sibling {
+				r.Violate(m.fw+"_final_slash_not_distinguished", fmt.Sprintf("%s %s /%s matches %s (%s); status %d, handlers %v", m.fw, m.method, strings.Join(m.segs, "/"), opName(want.op), want.path(), res.Status, handlerNames(handlers)), replay)
+				continue
+			}
+		}
 		if !isStrictPkg(lab, sc["pkg"].(string)) {
 			dcases.Add(fmt.Sprintf("(%s, %s, %s, %s, %s)", gendoc.CoqStrList(m.base), coqRoutes(set.rs), gendoc.CoqStr(strings.ToUpper(m.method)), gendoc.CoqStrList(m.segs), obs), replay)
 		}
@@ -653,7 +690,15 @@ func runC03(r *Report, rng *rand.Rand, thorough bool) {
 		}
 	}
 	dcases.WriteTo(r)
-	r.Rule = "function level: random path templates through SwaggerUriTo{Echo,Chi,Gin,Gorilla,StdHttp,Fiber,Iris}Uri, OrderedParamsFromUri and SortParamsByPath (permuted, missing, extra and renamed declarations) vs the model; generated routers: random route sets (shared prefixes, static/templated siblings, 0-4 variables, path-level / operation-level / overridden parameter declarations in shuffled order) x 7 frameworks x with/without base URL x strict/non-strict, requests = matching paths with random values, extra/missing segment, other method, value equal to a sibling literal, missing base prefix; non-trivial = a near-miss or sibling probe"
+	r.Rule = "function level: random path templates through SwaggerUriTo{Echo,Chi,Gin,Gorilla,StdHttp,Fiber,Iris}Uri, OrderedParamsFromUri and SortParamsByPath (permuted, missing, extra and renamed declarations) vs the model; generated routers: random route sets (shared prefixes, static/templated siblings, 0-4 variables, path-level / operation-level / overridden parameter declarations in shuffled order) x 7 frameworks x with/without base URL x strict/non-strict, requests = matching paths with random values, extra/missing segment, other method, value equal to a sibling literal, missing base prefix; one fixed set of paths differing in a final slash plus the root path (/, /pets, /pets/, /pets/{id}); non-trivial = a near-miss or sibling probe"
+}
+
+func handlerNames(hs []LabEvent) []string {
+	var out []string
+	for _, h := range hs {
+		out = append(out, h.Name)
+	}
+	return out
 }
 
 func isStrictPkg(l *Lab, name string) bool {
